@@ -103,13 +103,14 @@ class Merge(Expr):
             predicate_columns = self._predicate_columns(predicate)
             if predicate_columns is None:
                 return False
-            if predicate_columns.issubset(self.left.columns):
+            if len(predicate_columns) == 0:
+                return True
+            sides = self._predicate_sides(predicate_columns)
+            if "left" in sides:
                 return self.how in ("left", "inner", "leftsemi")
-            elif predicate_columns.issubset(self.right.columns):
+            elif "right" in sides:
                 return self.how in ("right", "inner")
-            elif len(predicate_columns) > 0:
-                return False
-            return True
+            return False
         elif isinstance(parent.predicate, And):
             # If we can make that transformation then we should do it to further
             # align filters that sit on top of merges
@@ -118,6 +119,34 @@ class Merge(Expr):
                 x()._name for x in dependents[self._name] if x() is not None
             }
         return False
+
+    def _predicate_sides(self, predicate_columns):
+        """The inputs into which a predicate on these columns is moved
+
+        A column that both inputs have and that got a suffix on one side
+        refers to the other side.
+        """
+        sides = []
+        left_suffix, right_suffix = self.suffixes[0], self.suffixes[1]
+        if predicate_columns.issubset(self.left.columns):
+            if not (
+                left_suffix != ""
+                and any(
+                    f"{col}{left_suffix}" in self.columns and col in self.right.columns
+                    for col in predicate_columns
+                )
+            ):
+                sides.append("left")
+        if predicate_columns.issubset(self.right.columns):
+            if not (
+                right_suffix != ""
+                and any(
+                    f"{col}{right_suffix}" in self.columns and col in self.left.columns
+                    for col in predicate_columns
+                )
+            ):
+                sides.append("right")
+        return sides
 
     def _predicate_columns(self, predicate):
         if isinstance(predicate, (Projection, Unaryop, Isin)):
@@ -466,27 +495,13 @@ class Merge(Expr):
 
             predicate_cols = self._predicate_columns(parent.predicate)
             new_left, new_right = self.left, self.right
-            left_suffix, right_suffix = self.suffixes[0], self.suffixes[1]
-            if predicate_cols and predicate_cols.issubset(self.left.columns):
-                if left_suffix != "" and any(
-                    f"{col}{left_suffix}" in self.columns and col in self.right.columns
-                    for col in predicate_cols
-                ):
-                    # column was renamed so the predicate must go into the other side
-                    pass
-                else:
-                    left_filter = predicate.substitute(self, self.left)
-                    new_left = self.left[left_filter]
-            if predicate_cols and predicate_cols.issubset(self.right.columns):
-                if right_suffix != "" and any(
-                    f"{col}{right_suffix}" in self.columns and col in self.left.columns
-                    for col in predicate_cols
-                ):
-                    # column was renamed so the predicate must go into the other side
-                    pass
-                else:
-                    right_filter = predicate.substitute(self, self.right)
-                    new_right = self.right[right_filter]
+            sides = self._predicate_sides(predicate_cols) if predicate_cols else []
+            if "left" in sides:
+                left_filter = predicate.substitute(self, self.left)
+                new_left = self.left[left_filter]
+            if "right" in sides:
+                right_filter = predicate.substitute(self, self.right)
+                new_right = self.right[right_filter]
             if new_right is self.right and new_left is self.left:
                 # don't drop the filter
                 return
